@@ -216,7 +216,7 @@ func TestC14aErrorClasses(t *testing.T) {
 					underFault = true
 				}
 			case "malformed-response":
-				if cur != nil && cur.State.Accepted {
+				if cur != nil && cur.Accepted() {
 					underFault = true
 					owed := cur.Owed()
 					var id uint16
@@ -259,7 +259,7 @@ func TestC14aErrorClasses(t *testing.T) {
 		}
 		// an honest answer for whoever still waits
 		if !h.IsDone(call) {
-			if cur := h.Current(); cur != nil && cur.State.Accepted {
+			if cur := h.Current(); cur != nil && cur.Accepted() {
 				h.WithLock(func() { h.FlushOwedLocked(cur) })
 				h.App.Step()
 				h.SettleReader("answer")
